@@ -100,3 +100,53 @@ RULES = [
     ('nc_d-400_ss', '15', (2021,), lambda c: sum(c.v(str(k)) for k in range(1, 15)), NC + ' Schedule S total additions'),
     ('nc_d-400_ss', '16', Y22, lambda c: sum(c.v(str(k)) for k in range(1, 16)), NC + ' Schedule S total additions'),
 ]
+
+R = '1040_recovery_rebate_credit_wkst'
+RRC = '2021 Form 1040 instructions, line 30, Recovery Rebate Credit Worksheet'
+W5 = '2021 Schedule 8812 instructions, Line 5 Worksheet'
+S21 = '2021 Schedule 8812'
+import math as _m
+
+RULES += [
+    # ---------------- more Form 1040 carries
+    ('1040', '13', ALL, lambda c: c.x('8995.15'), I1040 + ' 13 = Form 8995 line 15'),
+    ('1040', '28', Y22, lambda c: c.x('1040_s8812.27'), I1040 + ' 28 = Schedule 8812 line 27'),
+    ('1040', '19', (2021,), lambda c: c.x('1040_s8812.nonrefundable_ctc_or_odc'), I1040 + ' 19 (2021: Schedule 8812 line 14h)'),
+    ('1040', '28', (2021,), lambda c: c.x('1040_s8812.refundable_ctc_or_additional_ctc'), I1040 + ' 28 (2021: Schedule 8812 line 14i)'),
+    ('1040', '30', (2021,), lambda c: c.x(R + '.credit'), I1040 + ' 30 (2021 recovery rebate credit)'),
+    ('1040', '36', ALL, lambda c: min(c.v('34'), c.v('36')) if c.v('34') > 0.001 else 0.0, I1040 + ' 36: not more than line 34'),
+    ('1040_s1', '13', ALL, lambda c: c.sum('8889', 'hsa_deduction'), 'Schedule 1 line 13 = Form(s) 8889 line 13'),
+    ('1040_s1', '18', ALL, lambda c: c.sum('1099-int', 'box_2'), 'Schedule 1 line 18: early withdrawal penalty, Form 1099-INT box 2'),
+    ('8889', 'hsa_deduction', ALL, lambda c: c.v('13'), 'Form 8889 line 13'),
+    # ---------------- 2021 recovery rebate credit worksheet
+    (R, '8', (2021,), lambda c: c.v('6') + c.v('7'), RRC), (R, '9', (2021,), lambda c: c.x('1040.11'), RRC),
+    (R, '10', (2021,), lambda c: c.amount('rrc_phaseout_end') - c.v('9'), RRC),
+    (R, '11', (2021,), lambda c: c.v('10') / c.amount('rrc_denominator'), RRC),
+    (R, '12', (2021,), lambda c: (c.v('8') * c.v('11')) if c.v('9') > c.amount('rrc_phaseout_start') else c.v('8'), RRC),
+    (R, '14', (2021,), lambda c: max(0.0, c.v('12') - c.v('13')), RRC),
+    # ---------------- 2021 Schedule 8812 and its line 5 worksheet
+    ('1040_s8812', '4c', (2021,), lambda c: c.v('4a') - c.v('4b'), S21 + ' line 4c'),
+    ('1040_s8812', '5_ws_1', (2021,), lambda c: c.v('4b') * 3600.0, W5), ('1040_s8812', '5_ws_2', (2021,), lambda c: c.v('4c') * 3000.0, W5),
+    ('1040_s8812', '5_ws_3', (2021,), lambda c: c.v('5_ws_1') + c.v('5_ws_2'), W5), ('1040_s8812', '5_ws_4', (2021,), lambda c: c.v('4a') * 2000.0, W5),
+    ('1040_s8812', '5_ws_5', (2021,), lambda c: c.v('5_ws_3') - c.v('5_ws_4'), W5), ('1040_s8812', '5_ws_7', (2021,), lambda c: min(c.v('5_ws_5'), c.v('5_ws_6')), W5),
+    ('1040_s8812', '5_ws_9', (2021,), lambda c: (_m.ceil(round(c.x('1040_s8812.3') - c.v('5_ws_8'), 6) / 1000.0) * 1000.0) if c.x('1040_s8812.3') - c.v('5_ws_8') > 0.001 else 0.0, W5),
+    ('1040_s8812', '5_ws_10', (2021,), lambda c: c.v('5_ws_9') * 0.05, W5), ('1040_s8812', '5_ws_11', (2021,), lambda c: min(c.v('5_ws_7'), c.v('5_ws_10')), W5),
+    ('1040_s8812', '5_ws_12', (2021,), lambda c: c.v('5_ws_3') - c.v('5_ws_11'), W5),
+    ('1040_s8812', '5', (2021,), lambda c: c.v('5_ws_12') if c.v('4a') > 0 else 0.0, S21 + ' line 5'),
+    ('1040_s8812', '14a', (2021,), lambda c: min(c.v('7'), c.v('12')), S21 + ' line 14a'), ('1040_s8812', '14b', (2021,), lambda c: c.v('12') - c.v('14a'), S21 + ' line 14b'),
+    ('1040_s8812', '14d', (2021,), lambda c: min(c.v('14a'), c.v('14c')), S21 + ' line 14d'), ('1040_s8812', '14e', (2021,), lambda c: c.v('14b') + c.v('14d'), S21 + ' line 14e'),
+    ('1040_s8812', '14g', (2021,), lambda c: max(0.0, c.v('14e') - c.v('14f')), S21 + ' line 14g'),
+    ('1040_s8812', '14h', (2021,), lambda c: min(c.v('14d'), c.v('14g')) if c.v('14g') > 0.001 else 0.0, S21 + ' line 14h'),
+    ('1040_s8812', '14i', (2021,), lambda c: (c.v('14g') - c.v('14h')) if c.v('14g') > 0.001 else 0.0, S21 + ' line 14i'),
+    # ---------------- NC
+    ('nc_d-400', '9', (2021,), lambda c: c.x('nc_d-400_ss.38'), NC + ' line 9 = Schedule S total deductions (2021: line 38)'),
+    ('nc_d-400', '9', Y22, lambda c: c.x('nc_d-400_ss.41'), NC + ' line 9 = Schedule S total deductions (2022+: line 41)'),
+    ('nc_d-400', '11', ALL, lambda c: c.x('nc_d-400_sa.deduction') if c.v('11_itemizing') else c.x('nc_d-400_sa.nc_standard_deduction'), NC + ' line 11'),
+    ('nc_d-400_sa', 'deduction', ALL, lambda c: max(c.v('nc_standard_deduction'), c.v('10')), NC + ' Schedule A: larger of standard and itemized'),
+    ('nc_d-400_ss', '41', Y22, lambda c: sum(c.v(str(k)) for k in range(17, 23)) + c.v('23f') + c.v('24f') + sum(c.v(str(k)) for k in range(25, 41)), NC + ' Schedule S total deductions'),
+    ('nc_d-400_ss', '38', (2021,), lambda c: sum(c.v(str(k)) for k in range(16, 22)) + c.v('22f') + c.v('23f') + sum(c.v(str(k)) for k in range(24, 38)), NC + ' Schedule S total deductions'),
+    ('nc_d-400_ss', '23f', Y22, lambda c: sum(c.v('23' + x) for x in 'abcde'), NC + ' Schedule S line 23f'),
+    ('nc_d-400_ss', '24f', Y22, lambda c: sum(c.v('24' + x) for x in 'abcde'), NC + ' Schedule S line 24f'),
+    ('nc_d-400_ss', '22f', (2021,), lambda c: sum(c.v('22' + x) for x in 'abcde'), NC + ' Schedule S line 22f'),
+    ('nc_d-400_ss', '23f', (2021,), lambda c: sum(c.v('23' + x) for x in 'abcde'), NC + ' Schedule S line 23f'),
+]
